@@ -76,4 +76,39 @@ def run(c):
                     fail = f"_check_types() returned {ok!r} after inference"
             except BaseException as e:  # noqa: BLE001
                 fail = f"_check_types() raised {type(e).__name__} after inference (erased: {c['erased']})"
+    if fail is None:
+        fail = staged(r, c)
     return Outcome(coq, fail, nontriv, sig)
+
+
+def staged(r, c):
+    """the same graph built in two stages on ONE graph object: first only one Input (inferred once), then every other node
+    and all edges are added in place and inference runs again — the result must be the truth as well"""
+    import nir
+    try:
+        with quiet():
+            full = V.build(r)
+            ins = [k for k, n in full.nodes.items() if type(n).__name__ == "Input"]
+            if not ins:
+                return None
+            first = ins[0]
+            g = nir.NIRGraph(nodes={first: full.nodes[first]}, edges=[])
+            g.infer_types()
+            _ = g.inputs, g.outputs
+            for k, n in full.nodes.items():
+                if k != first:
+                    g.nodes[k] = n
+            g.edges.extend(full.edges)
+            g.infer_types()
+    except BaseException as e:  # noqa: BLE001
+        return f"building the graph in two stages (one Input first, the rest added in place) and inferring raised {type(e).__name__}: {e}"
+    for name, (tin, tout) in c["truth"].items():
+        n = g.nodes[name]
+        gi, go = tval(n.input_type, "input"), tval(n.output_type, "output")
+        if gi != tin or go != tout:
+            return (f"graph built in two stages on one object (Input {first!r} first and inferred, the rest added in place, inferred "
+                    f"again): node {name} has types {gi} -> {go}, expected {tin} -> {tout} (erased: {c['erased']})")
+    want_in = sorted(k for k, n in g.nodes.items() if type(n).__name__ == "Input")
+    if sorted(g.inputs.keys()) != want_in or sorted((g.input_type or {}).keys()) != want_in:
+        return f"graph built in two stages: graph.inputs {sorted(g.inputs)} / input_type keys {sorted((g.input_type or {}))} != Input children {want_in}"
+    return None
